@@ -1,0 +1,12 @@
+//go:build verif
+
+package sftp
+
+// Hook for the verification harness (property C17: long names of listings). Wrapper only.
+
+import (
+	sshfx "github.com/pkg/sftp/internal/encoding/ssh/filexfer"
+)
+
+// VerifFxModeString is sshfx.FileMode(m).String(): the permission column of a long name for the wire mode word m.
+func VerifFxModeString(m uint32) string { return sshfx.FileMode(m).String() }
